@@ -39,9 +39,11 @@ var hostileFragments = []string{
 	"é", "名",
 	// the identifier length limit counted in bytes vs characters: 64 bytes in 32 characters, 63 and 66 bytes in 21 / 22
 	strings.Repeat("é", 32), strings.Repeat("名", 21), strings.Repeat("名", 22),
+	// the non-finite number words in odd letter case (a guard that lists spellings misses some)
+	"iNf", "nAn", "infiNity", "-iNf",
 }
 
-var c02Slots = []string{"eq", "cmp", "lo", "hi", "list", "bare", "field", "dfname"}
+var c02Slots = []string{"eq", "cmp", "lo", "hi", "list", "bare", "field", "dfname", "wild", "regexp"}
 var c02Forms = []string{"quoted", "escaped", "raw"}
 
 func init() {
@@ -105,8 +107,8 @@ func init() {
 		},
 		Eval:   c02Eval,
 		Shrink: c02Shrink,
-		Rule: "every concatenation of <= 2 (thorough: 3 on field name, equality value, range bound) of 40 hostile fragments (quotes, backslash-quote, ; -- /* */ $$ $1 ? ::int parentheses comma ' OR 1=1' NaN Inf -Infinity 1e999 0x10 E'x' U&'x' NUL 0xff newline 64-byte run, multi-byte runs of 63 / 64 / 66 bytes) " +
-			"in each of 8 slots (equality / comparison value, range bounds, list element, bare term, field name, default-field name) x 3 lexical forms (quoted, backslash-escaped, raw word) x {inline, parameterised}; plus every accepted member of TOK(Σ_full,N) x {default field or not} x 2 modes; " +
+		Rule: "every concatenation of <= 2 (thorough: 3 on field name, equality value, range bound) of 44 hostile fragments (quotes, backslash-quote, ; -- /* */ $$ $1 ? ::int parentheses comma ' OR 1=1' NaN Inf -Infinity 1e999 0x10 E'x' U&'x' NUL 0xff newline 64-byte run, multi-byte runs of 63 / 64 / 66 bytes) " +
+			"in each of 10 slots (equality / comparison value, range bounds, list element, bare term, field name, default-field name, literal part of a wildcard pattern, body of a regexp) x 3 lexical forms (quoted, backslash-escaped, raw word) x {inline, parameterised}; plus every accepted member of TOK(Σ_full,N) x {default field or not} x 2 modes; " +
 			"non-trivial = render succeeded; distinct = distinct SQL texts",
 		Assumptions: []string{"PostgreSQL 15 grammar and scanner via pg_query_go with standard_conforming_strings on (the default); analysis-time behaviour (types, collations) is not modelled",
 			"render errors are always acceptable for this property"},
@@ -216,6 +218,19 @@ func c02Eval(c core.Case) (res core.Result) {
 			df = core.BStr(h)
 			text = "a AND f : z"
 			al.addTerm("a")
+		} else if slot == "wild" {
+			// the fragment as the literal part of a pattern (a value checked as a literal may not be checked as a pattern)
+			if form == "quoted" {
+				return
+			}
+			text = "f : " + v.Token() + "*"
+			al.addTerm(v.Token() + "*")
+		} else if slot == "regexp" {
+			if form != "quoted" || strings.ContainsAny(h, `/\`) {
+				return
+			}
+			text = "f : /" + h + "/"
+			al.addTerm("/" + h + "/")
 		} else {
 			leaf := c08Leaf(slot, v)
 			if slot == "field" {
